@@ -85,6 +85,7 @@ type target struct {
 	StoreFields []string        // with an IOStores entry and a struct literal on the right: the literal's fields kept as arguments
 	LenSlices   []string        // slice variables represented by their length
 	AbsCalls    map[string]hint // callee text -> parameter (Z -> Typ) applied to the single argument
+	Shape       string          // expected result type of the definition; another shape (a loop that now returns instead of breaking, other carried variables) is "not regenerable", not a different function
 }
 
 var targets = []target{
@@ -682,6 +683,9 @@ func (x *tr) binary(e *ast.BinaryExpr) val {
 		return v
 	}
 	if v, ok := x.refNilTest(e); ok { // ext_chain.go
+		return v
+	}
+	if v, ok := x.ioCmp(e); ok { // ext_io.go
 		return v
 	}
 	if v, ok := x.errNilCmp(e); ok { // autoinline.go: err != nil on the result of an inlined helper
@@ -1617,6 +1621,9 @@ func translate(root *rootT, t target) (def string, info outFn) {
 		info.Results = append(info.Results, "actions")
 	}
 	rt := strings.Join(rts, " * ")
+	if t.Shape != "" && rt != t.Shape { // ext_io.go
+		fail("the definition has the shape %s, the obligations are stated for %s", rt, t.Shape)
+	}
 	def = fmt.Sprintf("(* %s : %s   parameters: %v *)\nDefinition %s%s : %s :=\n  %s.\n", t.Dir, t.Func, info.Params, t.Name, sig, rt, body)
 	return
 }
